@@ -83,22 +83,56 @@ def segIDPos (h : Hd) (j i : Nat) : Prop := infoOff h j + 2 ≤ i ∧ i < infoOf
 /-- the bytes the property allows a forwarding router to change: the byte that holds
 CurrINF/CurrHF, the SegID of the current segment and — at a segment change — of the next one -/
 def Mutable (h : Hd) (pm : Hdr) (i : Nat) : Prop :=
-  i = h.pathOff ∨ segIDPos h pm.currINF i ∨ segIDPos h (infIdx pm (pm.currHF + 1)) i
+  i = h.pathOff ∨ segIDPos h pm.currINF i ∨
+  (isXover (base h pm) = true ∧ segIDPos h (infIdx pm (pm.currHF + 1)) i)
+
+/-- info field `j` is one whose SegID this router may update: the current one or, at a segment
+change, the next one -/
+def Touched (h : Hd) (pm : Hdr) (j : Nat) : Prop :=
+  j = pm.currINF ∨ (isXover (base h pm) = true ∧ j = infIdx pm (pm.currHF + 1))
+
+instance (h : Hd) (pm : Hdr) (j : Nat) : Decidable (Touched h pm j) := by unfold Touched; infer_instance
 
 /-- a byte with the reserved bits of its position cleared: the six RSV bits of the path meta
-header (second byte of the line), the six reserved flag bits and the reserved byte of an info
-field; every other position is left alone -/
-def clr (h : Hd) (i : Nat) (x : UInt8) : UInt8 :=
+header (second byte of the line), the six reserved flag bits (first byte) and the reserved
+second byte of a touched info field; every other position is left alone -/
+def clr (h : Hd) (pm : Hdr) (i : Nat) (x : UInt8) : UInt8 :=
   if i = h.pathOff + 1 then UInt8.ofNat (x.toNat % 4)
-  else if h.pathOff + 4 ≤ i ∧ i < h.pathOff + 4 + 8 * h.numINF then
-    (if (i - (h.pathOff + 4)) % 8 = 0 then UInt8.ofNat (x.toNat % 4)
-     else if (i - (h.pathOff + 4)) % 8 = 1 then 0 else x)
+  else if i = infoOff h pm.currINF ∨
+      (isXover (base h pm) = true ∧ i = infoOff h (infIdx pm (pm.currHF + 1))) then
+    UInt8.ofNat (x.toNat % 4)
+  else if i = infoOff h pm.currINF + 1 ∨
+      (isXover (base h pm) = true ∧ i = infoOff h (infIdx pm (pm.currHF + 1)) + 1) then 0
   else x
+
+theorem clr_info_flags (h : Hd) (pm : Hdr) (j : Nat) (x : UInt8) (ht : Touched h pm j) :
+    clr h pm (infoOff h j) x = UInt8.ofNat (x.toNat % 4) := by
+  unfold clr
+  split
+  · rfl
+  · rw [if_pos]
+    rcases ht with rfl | ⟨hx, rfl⟩
+    · left; rfl
+    · right; exact ⟨hx, rfl⟩
+
+theorem clr_info_rsv (h : Hd) (pm : Hdr) (j : Nat) (x : UInt8) (ht : Touched h pm j) :
+    clr h pm (infoOff h j + 1) x = 0 := by
+  unfold clr
+  rw [if_neg (by unfold infoOff MetaLen InfoLen; omega)]
+  rw [if_neg, if_pos]
+  · rcases ht with rfl | ⟨hx, rfl⟩
+    · left; rfl
+    · right; exact ⟨hx, rfl⟩
+  · unfold infoOff MetaLen InfoLen
+    rintro (hc | ⟨_, hc⟩) <;> omega
+
+theorem clr_meta_rsv (h : Hd) (pm : Hdr) (x : UInt8) : clr h pm (h.pathOff + 1) x = UInt8.ofNat (x.toNat % 4) := by
+  unfold clr; rw [if_pos rfl]
 
 /-- `b` equals `raw` except in the mutable fields and for reserved bits that were cleared -/
 def Near (h : Hd) (pm : Hdr) (raw b : Bytes) : Prop :=
   b.length = raw.length ∧
-  ∀ i, ¬ Mutable h pm i → (b[i]? = raw[i]? ∨ b[i]? = (raw[i]?).map (clr h i))
+  ∀ i, ¬ Mutable h pm i → (b[i]? = raw[i]? ∨ b[i]? = (raw[i]?).map (clr h pm i))
 
 theorem Near.refl (h : Hd) (pm : Hdr) (raw : Bytes) : Near h pm raw raw := ⟨rfl, fun _ _ => Or.inl rfl⟩
 
@@ -139,7 +173,9 @@ theorem near_setMeta {h : Hd} {pm : Hdr} {raw b : Bytes} (hn : Near h pm raw b) 
       intro h0; apply hi; left; omega
     have hcases : t = 1 ∨ t = 2 ∨ t = 3 := by omega
     rcases hcases with rfl | rfl | rfl
-    · right; simp [clr]
+    · right
+      show some (UInt8.ofNat (m1.toNat % 4)) = some (clr h pm (h.pathOff + 1) m1)
+      rw [clr_meta_rsv]
     · left; rfl
     · left; rfl
 
@@ -147,7 +183,7 @@ theorem near_setMeta {h : Hd} {pm : Hdr} {raw b : Bytes} (hn : Near h pm raw b) 
 keeps `Near`, provided its SegID is among the mutable fields -/
 theorem near_setInfo {h : Hd} {pm : Hdr} {raw b : Bytes} (hn : Near h pm raw b) (j : Nat)
     (inf0 inf : Info) (hg : getInfo h raw j = some inf0) (hs : SameButSegID inf inf0)
-    (hj : j = pm.currINF ∨ j = infIdx pm (pm.currHF + 1)) :
+    (hj : Touched h pm j) :
     Near h pm raw (setInfo h b j inf) := by
   obtain ⟨hjn, hlen⟩ := getInfo_some_bound hg
   have hb : infoOff h j + 8 ≤ b.length := by rw [hn.1]; exact hlen
@@ -176,22 +212,231 @@ theorem near_setInfo {h : Hd} {pm : Hdr} {raw b : Bytes} (hn : Near h pm raw b) 
     rw [hw, henc, raw_at_of_slice hbytes t ht]
     have hnm : ¬ (2 ≤ t ∧ t < 4) := by
       intro hc; apply hi
-      rcases hj with rfl | rfl
+      rcases hj with rfl | ⟨hx, rfl⟩
       · right; left; unfold segIDPos; omega
-      · right; right; unfold segIDPos; omega
-    have hoff : infoOff h j = h.pathOff + 4 + 8 * j := by unfold infoOff MetaLen InfoLen; omega
-    have hrng : h.pathOff + 4 ≤ infoOff h j + t ∧ infoOff h j + t < h.pathOff + 4 + 8 * h.numINF := by
-      have : 8 * (j + 1) ≤ 8 * h.numINF := Nat.mul_le_mul_left 8 hjn
-      omega
-    have hne1 : infoOff h j + t ≠ h.pathOff + 1 := by omega
-    have hmod : (infoOff h j + t - (h.pathOff + 4)) % 8 = t := by omega
+      · right; right; exact ⟨hx, by unfold segIDPos; omega⟩
     have hcases : t = 0 ∨ t = 1 ∨ t = 4 ∨ t = 5 ∨ t = 6 ∨ t = 7 := by omega
     rcases hcases with rfl | rfl | rfl | rfl | rfl | rfl
-    · right; simp [clr, hne1, hrng, hmod]
-    · right; simp [clr, hne1, hrng, hmod]
+    · right
+      show some (UInt8.ofNat (b0.toNat % 4)) = some (clr h pm (infoOff h j) b0)
+      rw [clr_info_flags h pm j b0 hj]
+    · right
+      show some (0 : UInt8) = some (clr h pm (infoOff h j + 1) b1)
+      rw [clr_info_rsv h pm j b1 hj]
     · left; rfl
     · left; rfl
     · left; rfl
     · left; rfl
+
+/-! ### composition along `process` -/
+
+/-- what `incPath` does when it succeeds -/
+theorem incPath_ok' {b b' : Base} (e : incPath b = .ok b') :
+    b'.pm.currHF = b.pm.currHF + 1 ∧ b'.pm.currINF = infIdx b.pm (b.pm.currHF + 1) ∧
+    b'.pm.s0 = b.pm.s0 ∧ b'.pm.s1 = b.pm.s1 ∧ b'.pm.s2 = b.pm.s2 := by
+  unfold incPath at e
+  split at e
+  · cases e
+  · split at e
+    · cases e
+    · cases e; exact ⟨rfl, rfl, rfl, rfl, rfl⟩
+
+/-- the state after the ingress SegID update, relative to the received packet -/
+theorem segid_state {h : Hd} {pm : Hdr} {raw : Bytes} {ing : Ingress} {s0 s1 : St}
+    (a : ParseOk h pm raw s0) (b : SegIDOk h ing s0 s1) :
+    s1.pm = pm ∧ SameButSegID s1.inf s0.inf ∧ s1.buf.length = raw.length ∧
+    (∀ m0 m1 m2 m3, slice raw h.pathOff 4 = [m0, m1, m2, m3] → Near h pm raw s1.buf) := by
+  have bi := getInfo_some_bound a.inf
+  refine ⟨by rw [b.hpm, a.hpm], ?_, ?_, ?_⟩
+  · rw [b.inf]; split
+    · exact SameButSegID.upd _ _ _ (SameButSegID.refl _)
+    · exact SameButSegID.refl _
+  · rw [b.buf, a.buf]; split
+    · rw [a.hpm]; exact length_setInfo h raw pm.currINF _ bi.2
+    · rfl
+  · intro m0 m1 m2 m3 _
+    rw [b.buf, a.buf]; split
+    · rw [a.hpm]
+      exact near_setInfo (Near.refl h pm raw) pm.currINF s0.inf _ a.inf
+        (SameButSegID.upd _ _ _ (SameButSegID.refl _)) (Or.inl rfl)
+    · exact Near.refl h pm raw
+
+/-- the state after the cross-over stage, relative to the received packet: the current info
+field is one of the two whose SegID is mutable, and the cached copy differs from the received
+one at most in the SegID -/
+theorem xover_state {cfg : Cfg} {mac : Mac} {h : Hd} {pm : Hdr} {raw : Bytes} {now : Nat}
+    {ing : Ingress} {s0 s1 s5 : St}
+    (a : ParseOk h pm raw s0) (b : SegIDOk h ing s0 s1) (x : XoverOk cfg mac h now s1 s5) :
+    (s5.pm.currINF = pm.currINF ∨
+      (isXover (base h pm) = true ∧ s5.pm.currINF = infIdx pm (pm.currHF + 1))) ∧
+    s5.pm.s0 = pm.s0 ∧ s5.pm.s1 = pm.s1 ∧ s5.pm.s2 = pm.s2 ∧
+    (∃ inf0, getInfo h raw s5.pm.currINF = some inf0 ∧ SameButSegID s5.inf inf0) ∧
+    (∀ m0 m1 m2 m3, slice raw h.pathOff 4 = [m0, m1, m2, m3] → pm = decode (beNat [m0, m1, m2, m3]) →
+      Near h pm raw s5.buf) := by
+  obtain ⟨hpm1, hsame, hlen, hnear⟩ := segid_state a b
+  have bi := getInfo_some_bound a.inf
+  cases hdx : doesXover h s1
+  · have := x.no hdx; subst this
+    refine ⟨Or.inl (by rw [hpm1]), by rw [hpm1], by rw [hpm1], by rw [hpm1], ⟨s0.inf, ?_, hsame⟩, ?_⟩
+    · rw [hpm1]; exact a.inf
+    · intro m0 m1 m2 m3 hm _; exact hnear m0 m1 m2 m3 hm
+  · obtain ⟨b', hinc, hpm', hbuf, _, hi2, _, _, _⟩ := x.yes hdx
+    rw [hpm1] at hinc
+    obtain ⟨_, e2, e3, e4, e5⟩ := incPath_ok' hinc
+    simp only [base] at e2 e3 e4 e5
+    have hmeta : h.pathOff + 4 ≤ s1.buf.length := by
+      have := pathOff_le_infoOff h pm.currINF; omega
+    have hxo : isXover (base h pm) = true := by
+      unfold doesXover at hdx
+      rw [hpm1] at hdx
+      simp at hdx
+      exact hdx.1
+    have hne : infIdx pm (pm.currHF + 1) ≠ pm.currINF := by
+      unfold isXover base at hxo
+      simp at hxo
+      intro hc; exact hxo.2 hc.symm
+    have hraw : getInfo h raw (infIdx pm (pm.currHF + 1)) = some s5.inf := by
+      rw [getInfo_setMeta h s1.buf b'.pm hmeta, e2] at hi2
+      rw [← hi2, b.buf, a.buf]
+      split
+      · rw [a.hpm]; exact (getInfo_setInfo_ne h raw pm.currINF _ bi.2 _ hne).symm
+      · rfl
+    refine ⟨Or.inr ⟨hxo, by rw [hpm', e2]⟩, by rw [hpm', e3], by rw [hpm', e4], by rw [hpm', e5],
+      ⟨s5.inf, by rw [hpm', e2]; exact hraw, SameButSegID.refl _⟩, ?_⟩
+    intro m0 m1 m2 m3 hm hdec
+    rw [hbuf]
+    exact near_setMeta (hnear m0 m1 m2 m3 hm) b'.pm m0 m1 m2 m3 hm
+      (by rw [e3, hdec]) (by rw [e4, hdec]) (by rw [e5, hdec])
+
+/-- **frame of an accepted packet**: the output buffer of `process` equals the received packet
+except in the mutable fields and for cleared reserved bits -/
+theorem accept_near (cfg : Cfg) (mac : Mac) (resolve : Cfg → Hd → ResolveOut) (now : Nat)
+    (ing : Ingress) (h : Hd) (pm : Hdr) (raw : Bytes)
+    (m0 m1 m2 m3 : UInt8) (hm : slice raw h.pathOff 4 = [m0, m1, m2, m3])
+    (hdec : pm = decode (beNat [m0, m1, m2, m3]))
+    (hacc : (process cfg mac resolve now ing h pm raw).1.accepting = true) :
+    Near h pm raw (process cfg mac resolve now ing h pm raw).2 := by
+  obtain ⟨s0, s1, p⟩ := process_accepting_inv hacc
+  have a := stParse_ok p.parse
+  have b := stSegID_ok p.segid
+  rw [process_of_passed p] at hacc ⊢
+  unfold tail at hacc ⊢
+  by_cases hd : h.dstIA = cfg.localIA
+  · simp only [hd, beq_self_eq_true, if_true]
+    rw [inbound_buf]
+    exact (segid_state a b).2.2.2 m0 m1 m2 m3 hm
+  · have hb : (h.dstIA == cfg.localIA) = false := by simpa using hd
+    simp only [hb, Bool.false_eq_true, if_false] at hacc ⊢
+    obtain ⟨s5, l, o⟩ := outbound_accepting_inv hacc
+    have x := stXover_ok o.xo
+    obtain ⟨hidx, e0, e1, e2, ⟨inf0, hg, hsame⟩, hnear⟩ := xover_state a b x
+    have hn5 := hnear m0 m1 m2 m3 hm hdec
+    rcases o.buf with ⟨_, s7, hpe, hbuf⟩ | ⟨_, hbuf⟩
+    · rw [hbuf]
+      obtain ⟨b', hinc, _, hb7⟩ := stProcessEgress_ok hpe
+      obtain ⟨_, _, f0, f1, f2⟩ := incPath_ok' hinc
+      simp only [base] at f0 f1 f2
+      rw [hb7]
+      apply near_setMeta _ b'.pm m0 m1 m2 m3 hm (by rw [f0, e0, hdec]) (by rw [f1, e1, hdec])
+        (by rw [f2, e2, hdec])
+      split
+      · exact near_setInfo hn5 s5.pm.currINF inf0 _ hg (SameButSegID.upd _ _ _ hsame) hidx
+      · exact hn5
+    · rw [hbuf]; exact hn5
+
+/-! ### what the decoder guarantees about the meta line -/
+
+theorem list4_of_length {l : Bytes} (h : l.length = 4) : ∃ a b c d, l = [a, b, c, d] := by
+  match l, h with
+  | [a, b, c, d], _ => exact ⟨a, b, c, d, rfl⟩
+
+theorem parse_ok_meta {raw : Bytes} {h : Hd} {pm : Hdr} (e : parse raw = .ok h pm) :
+    (∃ m0 m1 m2 m3, slice raw h.pathOff 4 = [m0, m1, m2, m3] ∧ pm = decode (beNat [m0, m1, m2, m3])) ∧
+    (∃ b, baseDecode pm = some b ∧ h.numINF = b.numINF ∧ h.numHops = b.numHops) := by
+  unfold parse at e
+  split at e
+  · rename_i x0 x1 x2 x3 nh hl pl0 pl1 pt ty x10 x11 rest
+    dsimp only at e
+    split at e
+    · cases e
+    · split at e
+      · cases e
+      · rename_i c1
+        split at e
+        · cases e
+        · rename_i c2
+          split at e
+          · cases e
+          · rename_i c3
+            split at e
+            · cases e
+            · rename_i c4
+              split at e
+              · cases e
+              · rename_i b hb
+                split at e
+                · cases e
+                · split at e
+                  · cases e
+                  · split at e
+                    · cases e
+                    · split at e
+                      · cases e
+                      · cases e
+                        simp only
+                        have hlen : (slice (x0 :: x1 :: x2 :: x3 :: nh :: hl :: pl0 :: pl1 :: pt :: ty :: x10 :: x11 :: rest)
+                            (28 + addrLen (ty.toNat / 16) + addrLen (ty.toNat % 16)) 4).length = 4 := by
+                          rw [length_slice]
+                          simp only [List.length_cons] at c3 ⊢
+                          omega
+                        obtain ⟨a, b', c, d, habcd⟩ := list4_of_length hlen
+                        refine ⟨⟨a, b', c, d, habcd, ?_⟩, ⟨b, hb, rfl, rfl⟩⟩
+                        rw [← habcd]
+  · cases e
+/-- for a header the decoder accepted, every hop index below NumHops lies in a segment whose
+info field exists -/
+theorem infIdx_lt_numINF {m : Hdr} {b : Base} (e : baseDecode m = some b) (c : Nat)
+    (hc : c < b.numHops) : infIdx m c < b.numINF := by
+  obtain ⟨ci, ch, s0, s1, s2⟩ := m
+  unfold infIdx
+  cases s0 <;> cases s1 <;> cases s2 <;>
+    simp [baseDecode, List.foldl, baseStep, segLen, maxHops] at e <;>
+    (try (obtain ⟨_, e⟩ := e)) <;> (try subst e) <;> simp at hc ⊢ <;> (try split) <;> (try split) <;> omega
+
+theorem touched_in_range {raw : Bytes} {h : Hd} {pm : Hdr} (hp : parse raw = .ok h pm)
+    (hcur : pm.currINF < h.numINF) {j : Nat} (ht : Touched h pm j) : j < h.numINF := by
+  rcases ht with rfl | ⟨hx, rfl⟩
+  · exact hcur
+  · obtain ⟨_, b, hb, h1, h2⟩ := parse_ok_meta hp
+    unfold isXover base at hx
+    simp at hx
+    rw [h1]
+    apply infIdx_lt_numINF hb
+    rw [← h2]; exact hx.1
+
+theorem accepting_currINF_lt {cfg : Cfg} {mac : Mac} {resolve : Cfg → Hd → ResolveOut} {now : Nat}
+    {ing : Ingress} {h : Hd} {pm : Hdr} {raw : Bytes}
+    (hacc : (process cfg mac resolve now ing h pm raw).1.accepting = true) : pm.currINF < h.numINF := by
+  obtain ⟨s0, s1, p⟩ := process_accepting_inv hacc
+  exact (getInfo_some_bound (stParse_ok p.parse).inf).1
+
+/-- outside the meta line and the info fields `clr` never changes anything -/
+theorem clr_id_outside {raw : Bytes} {h : Hd} {pm : Hdr} (hp : parse raw = .ok h pm)
+    (hcur : pm.currINF < h.numINF) (i : Nat)
+    (hi : i < h.pathOff ∨ h.pathOff + 4 + 8 * h.numINF ≤ i) (x : UInt8) : clr h pm i x = x := by
+  have hinf : ∀ j, Touched h pm j → i ≠ infoOff h j ∧ i ≠ infoOff h j + 1 := by
+    intro j ht
+    have hj := touched_in_range hp hcur ht
+    have := Nat.mul_le_mul_left 8 hj
+    unfold infoOff MetaLen InfoLen
+    omega
+  unfold clr
+  rw [if_neg (by omega), if_neg, if_neg]
+  · rintro (hc | ⟨hx, hc⟩)
+    · exact (hinf _ (Or.inl rfl)).2 hc
+    · exact (hinf _ (Or.inr ⟨hx, rfl⟩)).2 hc
+  · rintro (hc | ⟨hx, hc⟩)
+    · exact (hinf _ (Or.inl rfl)).1 hc
+    · exact (hinf _ (Or.inr ⟨hx, rfl⟩)).1 hc
 
 end Scion.Router
